@@ -10,6 +10,7 @@ TECH_INPUT = "exhaustive small-scope input enumeration against a reference defin
 claimed = {
  "C12": dict(tech=TECH + "; each complete execution yields a call/return history checked against the sequential specification with porcupine", ref="3 C12", text="Every interleaving of the individual atomic loads/CASes (AtomicLIFO) and critical sections (LinkedList) of small multi-threaded programs with all operation mixes; each history is checked for linearizability against a sequential stack/deque (porcupine) and for element conservation."),
  "C03": dict(tech=TECH, ref="3 C03", text="Every interleaving of waiters, broadcasters (HoldLock, TryHoldLock, HoldLockMaybeAsync), cancellers and a channel-collecting observer on the real Broadcast; generation oracle on channel closedness (read from the channel header) in every critical section, result oracles on Wait, and no waiter parked at quiescence while its predicate holds."),
+ "C17": dict(tech=TECH, ref="3 C17", text="Every interleaving of CallConcurrently with 0-3 functions over every outcome vector (nil entry, nil, two errors, context.Canceled, park-until-cancelled) and a caller-cancel thread; the point after every unlock exposes the window between the caller's critical section and its next plain read."),
  "C01": dict(tech=TECH, ref="3 C01", text="Every interleaving (preemption bound 2 quick / 3 thorough) of 8+4 small client programs of csync.Mutex/RWMutex (Lock, TryLock, Locker, double release, cancellation) runs on the real code; an exact occupancy counter checks 'one writer or many readers' at every acquire."),
  "C02": dict(tech=TECH, ref="3 C02", text="Same exploration; liveness is decided exactly at every quiescent state of the controlled scheduler (nobody parked in a grantable Lock), cancelled waiters must return context.Canceled and leave the lock probe-able, readers may not overtake a waiting writer."),
 }
